@@ -688,7 +688,8 @@ fn sim_case(case_seed: u64, rep: &mut Report) {
             8 => {
                 // a PREPARE (or a duplicate of it) reaches a shard that is not a participant of the
                 // transaction; that shard prepares and answers like any other
-                let i = rng.below(n);
+                let open: Vec<usize> = (0..n).filter(|&i| sim.obs[i].id.is_some() && sim.obs[i].decision().is_none()).collect();
+                let i = if open.is_empty() || rng.chance(1, 5) { rng.below(n) } else { *rng.pick(&open) };
                 let outside: Vec<usize> = (0..plan.shards).filter(|s| !plan.txs[i].participants.contains(s)).collect();
                 if sim.obs[i].id.is_some() && !outside.is_empty() {
                     let shard = *rng.pick(&plan.txs[i].participants);
